@@ -22,6 +22,7 @@ PRE = [
     (r'const delta_time time_till_next_event = ll_setup_next_connection_event\(\);', 'const uint32_t time_till_next_event = ll_setup_next_connection_event();', '*'),
     (r'connection_event_callback::call_connection_event_callback\( time_till_next_event \);', 'll_call_connection_event_callback( time_till_next_event );', '*'),
     (r'(?<![\w.])transmit_pending_control_pdus\(\);', 'll_transmit_pending_control_pdus();', '*'), (r'this->transmit_pending_l2cap_output\( connection_data_ \);', 'll_transmit_pending_l2cap_output();', '*'),
+    (r'this->synchronized_connection_event_callback_disconnect\(\);', 'll_sync_disconnect();', '*'), (r'this->reset_encryption\(\);', 'll_reset_encryption();', '*'),
     (r'(\w+_)\.zero\(\)', r'( \1 == 0 )', '*'), (r'= delta_time\(\);', '= 0;', '*'), (r'= delta_time\( default_procedure_timeout_us \);', '= default_procedure_timeout_us;', '*'),
     (r'const auto time_since_last_event', 'const uint32_t time_since_last_event', '*'),
     (r'\bstate::', 'state_', '*'), (r'\bll_result::', 'll_result_', '*'),
@@ -71,12 +72,13 @@ EX = dict(llc.BITS_EXTRACTS,
     company_identifier=llc.EX['company_identifier'], ll_result=llc.EX['ll_result'], ll_state=llc.EX['ll_state'],
     default_timeout=dict(kind='expr', file=LL, scope=CLS, locate=r'static constexpr std::uint32_t\s+default_procedure_timeout_us\s*='),
     num_windows=dict(kind='expr', file=LL, scope=CLS, locate=r'static constexpr unsigned\s+num_windows_til_timeout\s*='),
-    fields=dict(kind='fields', file=LL, scope=CLS, names=['connection_interval_', 'peripheral_latency_', 'connection_timeout_', 'procedure_timeout_', 'defered_conn_event_counter_', 'defered_ll_control_pdu_', 'termination_send_',
+    fields=dict(kind='fields', file=LL, scope=CLS, names=['disconnecting_reason_', 'connection_interval_', 'peripheral_latency_', 'connection_timeout_', 'procedure_timeout_', 'defered_conn_event_counter_', 'defered_ll_control_pdu_', 'termination_send_',
                 'pending_event_', 'restart_user_timer_requested_', 'transmit_window_size_', 'proposed_interval_min_', 'proposed_interval_max_', 'proposed_latency_', 'proposed_timeout_', 'connection_parameters_request_pending_',
                 'connection_parameters_request_running_', 'phy_update_request_pending_', 'phy_update_request_running_', 'version_indication_sent_', 'phy_update_request_transmit_', 'phy_update_request_receive_', 'remote_versions_request_pending_'],
                 type_map={'delta_time': 'uint32_t', 'write_buffer': 'struct wbuf', 'volatile bool': 'bool'}),
     timeout=dict(file=LL, locate=T + r'void ' + Q + r'timeout\(\)', pre=PRE),
     end_event=dict(file=LL, locate=T + r'void ' + Q + r'end_event\( connection_event_events evts \)', pre=PRE),
+    disconnect=dict(file=LL, locate=T + r'void ' + Q + r'disconnect\( std::uint8_t reason \)', pre=PRE),
     tpc=dict(file=LL, locate=T + r'void ' + Q + r'transmit_pending_control_pdus\(\)', pre=PRE),
     received=dict(file=LL, locate=T + r'typename ' + Q + r'll_result ' + Q + r'handle_received_data\(\)', pre=RX_PRE, loops=[RX_LOOP],
                   rules=[(r'(const uint16_t llid = )', r'{ size_t bt_o = __CPROVER_POINTER_OFFSET(pdu.buffer); BT_GHOST_REBIND(pdu.buffer, G_rxmem + bt_o); } \1', 1)]),
@@ -215,6 +217,16 @@ __CPROVER_ensures(!(IS_PHY_IND && W_phy_running) ==> (self->procedure_timeout_ =
 __CPROVER_ensures(!(IS_PHY_REQ || IS_PHY_IND) ==> (!__CPROVER_return_value && G_o.fills == 0 && *commit == W_commit && self->defered_ll_control_pdu_.buffer == 0 && G_o.phy_cb == 0))
 __CPROVER_assigns(__CPROVER_object_whole(self), G_o, *commit)
 {{phy_req}}
+/* ---- disconnect( reason ): the local host ends the connection. The LL_TERMINATE_IND and whatever is waiting in the transmit buffer are still to be sent: */
+size_t G_enc_resets;
+static inline void ll_sync_disconnect(void) {} static inline void ll_reset_encryption(void) { ++G_enc_resets; }
+void ll_disconnect(struct ll* self, uint8_t reason)
+__CPROVER_requires(LL_OK(self) && G_enc_resets == 0)
+__CPROVER_ensures(self->state_ == state_disconnecting && !self->termination_send_ && self->disconnecting_reason_ == reason && self->procedure_timeout_ == W_conn_timeout)
+/* C05 / C34: the link stays encrypted until the connection is closed (force_disconnect, C29) - nothing that was queued for an encrypted link goes out in the clear */
+__CPROVER_ensures(G_enc_resets == 0)
+__CPROVER_assigns(__CPROVER_object_whole(self), G_enc_resets)
+{{disconnect}}
 /* ---- handle_pending_phy_request: at its instant the PHY update is applied with the PHYs the indication carried, and reported */
 struct { size_t calls; uint8_t a, b; } G_set_phy;
 static inline void ll_radio_set_phy(uint8_t c_to_p, uint8_t p_to_c) { ++G_set_phy.calls; G_set_phy.a = c_to_p; G_set_phy.b = p_to_c; }
@@ -273,10 +285,11 @@ __CPROVER_assigns(__CPROVER_object_whole(self), G_rx)
 {{received}}
 #define SETUP struct ll* s; W_t = nondet_u32(); W_out_pending = nondet_bool(); W_recv_disconnect = nondet_bool(); W_pending_disconnect = nondet_bool(); W_alloc_ok = nondet_bool(); W_cpr_rsp_pending = nondet_bool(); W_counter_after = nondet_u16(); \
   W_state = nondet_int(); W_proc = nondet_u32(); W_conn_timeout = nondet_u32(); W_interval = nondet_u32(); W_term_sent = nondet_bool(); W_deferred = nondet_bool(); W_instant = nondet_u16(); W_cpr_pending = nondet_bool(); W_phy_pending = nondet_bool(); W_ver_pending = nondet_bool(); W_version_sent = nondet_bool(); W_phy_running = nondet_bool(); \
-  G_o = (struct o_rec){ 0 }; W_op = nondet_u8(); W_size = nondet_u8(); W_pdu[3] = nondet_u8(); W_pdu[4] = nondet_u8(); W_pdu[5] = nondet_u8(); W_pdu[6] = nondet_u8(); W_commit = nondet_bool(); G_set_phy.calls = 0; G_rx = (struct rx_rec){ 0 }; G_rx.total = nondet_size(); G_rx.order_ok = true; G_k = nondet_size(); BT_KNOWN_EXCLUDE()
+  G_o = (struct o_rec){ 0 }; W_op = nondet_u8(); W_size = nondet_u8(); W_pdu[3] = nondet_u8(); W_pdu[4] = nondet_u8(); W_pdu[5] = nondet_u8(); W_pdu[6] = nondet_u8(); W_commit = nondet_bool(); G_set_phy.calls = 0; G_enc_resets = 0; G_rx = (struct rx_rec){ 0 }; G_rx.total = nondet_size(); G_rx.order_ok = true; G_k = nondet_size(); BT_KNOWN_EXCLUDE()
 void h_ll_timeout(void) { SETUP; ll_timeout(s); BT_CANARY(); }
 void h_ll_end_event(void) { SETUP; struct connection_event_events e; ll_end_event(s, e); BT_CANARY(); }
 void h_transmit_pending_control_pdus(void) { SETUP; transmit_pending_control_pdus(s); BT_CANARY(); }
+void h_ll_disconnect(void) { SETUP; ll_disconnect(s, nondet_u8()); BT_CANARY(); }
 void h_handle_received_data(void) { SETUP; handle_received_data(s); BT_CANARY(); }
 void h_handle_pending_phy_request(void) { SETUP; handle_pending_phy_request(s, W_op); BT_CANARY(); }
 void h_valid_phy_encoding(void) { valid_phy_encoding(nondet_u8()); BT_CANARY(); }
